@@ -256,6 +256,9 @@ func account(r *mon.Report, w *W, res *runResult, plan *faultPlan, idx int) {
 	if res.LookupFailed {
 		r.Inc("gc_runs_with_failed_node_lookup")
 	}
+	if w.joins > 0 {
+		r.Count("gc_claims_registered_inside_the_pass", w.joins)
+	}
 	caseDesc := map[string]any{"case": idx, "spec": S, "fault": plan, "names": w.Names, "nodes": w.Nodes}
 	// most telling witnesses first: a delete whose trigger is false on the ground truth as well
 	sort.SliceStable(res.Judged, func(a, b int) bool { return groundFalse(res.Judged[a]) && !groundFalse(res.Judged[b]) })
@@ -418,7 +421,32 @@ func (w *W) runReaper(res *runResult) {
 				all = append(all, i)
 			}
 		}
+		// claims whose scale-up completes inside the pass
+		join := func(where string) {
+			for i, c := range w.S.Claims {
+				if c.JoinsDuringPass != where || w.toCreate[i] == nil || w.joined[i] {
+					continue
+				}
+				w.joined[i] = true
+				name, err := e.Prov.Create(e.Ctx, w.toCreate[i])
+				if err != nil {
+					continue
+				}
+				w.Names[i] = name
+				if inst, node, err := e.DriveClaim(name, world.StageRegistered); err == nil && inst != nil {
+					w.PIDs[i], w.Nodes[i] = inst.ProviderID, node
+					w.joins++
+				}
+			}
+		}
+		e.Provider.OnList = func() { join("provider-list") }
+		e.API.PostRead = []func(verb, kind, caller string){func(verb, kind, caller string) {
+			if verb == "list" && kind == "NodeClaim" && strings.Contains(caller, "garbagecollection") {
+				join("claim-list")
+			}
+		}}
 		w.decide(res, all, func() error { _, err := w.gc.Reconcile(e.Ctx); return err })
+		e.Provider.OnList, e.API.PostRead = nil, nil
 		w.spy.mu.Lock()
 		res.LookupFailed = len(w.spy.nodeLookupErr) > 0
 		w.spy.mu.Unlock()
